@@ -107,7 +107,9 @@ def pool(cfg):
     p = [[("state", 0), ("povm", 0)], [("state", ns - 1), ("gate", 0), ("povm", npv - 1)],
          [("state", 0), ("mprocess", nm - 1)], [("state", 0), ("povm", npv)], [("state", 0), None, ("povm", 0)],
          [("povm", 0), ("state", 0)], [("state", 0), ("povm", 0), ("povm", 0)], [("state", 0)], [], None,
-         [("state", 0), ("gate", ng - 1), ("mprocess", 0), ("povm", 0), ("mprocess", 0)]]
+         [("state", 0), ("gate", ng - 1), ("mprocess", 0), ("povm", 0), ("mprocess", 0)],
+         # equal under == to p[0] (and hash-equal), but the index is not an int
+         [("state", 0), ("povm", 0.0)], [("state", False), ("povm", 0)], [("state", 0), ("povm", np.int64(0))]]
     return p
 
 
@@ -312,6 +314,24 @@ def calc_cases(ctx):
         n = {k: len(v) for k, v in lists.items()}
         for s in accepted_schedules(maxlen, n):
             yield o, lists, ms, s
+    # objects derived with operators.tensor_product on two qubits: measurement processes / POVMs with multi-dimensional
+    # outcome shapes ((2, 2), (2, 3)), product inputs that give exactly-zero branches
+    from quara.objects.operators import tensor_product
+    import qobj
+    c0, c1 = qobj.csys("qubit", names=(10,)), qobj.csys("qubit", names=(11,))
+    S = lambda c, x: generate_state_from_name(c, x)            # noqa: E731
+    M = lambda c, x: generate_mprocess_from_name(c, x)         # noqa: E731
+    g2 = ctx.npgen(22)
+    lists2 = {"state": [tensor_product(S(c0, "z0"), S(c1, "z0")), tensor_product(S(c0, "x0"), S(c1, "z1"))],
+              "povm": [tensor_product(generate_povm_from_name("z", c0), qobj.rand_povm(g2, c1, 3)),
+                       tensor_product(generate_povm_from_name("x", c0), generate_povm_from_name("z", c1))],
+              "gate": [tensor_product(generate_gate_from_gate_name("hadamard", c0), generate_gate_from_gate_name("x", c1))],
+              "mprocess": [tensor_product(M(c0, "z-type1"), M(c1, "z-type1")), tensor_product(M(c0, "x-type1"), qobj.rand_mprocess(g2, c1, 3)[0])]}
+    ms2 = {"state": [1, 1], "povm": [6, 4], "gate": [1], "mprocess": [4, 6]}
+    n2 = {k: len(v) for k, v in lists2.items()}
+    for s in accepted_schedules(4, n2):
+        if len(s) < 4 or ctx.rng.random() < (0.25 if ctx.quick else 1.0):
+            yield o, lists2, ms2, s
 
 
 def calc_outcome(e, idx, schedule):
@@ -436,6 +456,8 @@ def setter_ops(cfg):
         ops.append(("sched", [s]))
     ops.append(("sched", []))
     ops.append(("sched", [pool(cfg)[0], pool(cfg)[1]]))
+    for twin in pool(cfg)[11:]:
+        ops.append(("sched", [pool(cfg)[0], twin]))
     return ops
 
 
